@@ -61,6 +61,7 @@ type SpecFn struct {
 	Line     int
 	Rec      bool
 	Unfolds  int
+	PkgPath  string
 }
 
 type Lemma struct {
@@ -199,6 +200,7 @@ func (db *ContractDB) LoadFile(path string, trusted bool, pkgPath string) error 
 				return fmt.Errorf("%s:%d: %v", path, it.line, err)
 			}
 			sf.File, sf.Line = path, it.line
+			sf.PkgPath = pkgPath
 			if _, dup := db.Specs[sf.Name]; dup {
 				return fmt.Errorf("%s:%d: duplicate spec function %s", path, it.line, sf.Name)
 			}
